@@ -25,7 +25,8 @@ EXPLANATION = (
     ' (R12) who-may-delete census (shared with C09.R3): no unsanctioned deleter can remove files of an acknowledged commit; (R13) every handler an AmbiguousCommitError can flow into re-raises (an ambiguous commit is never retried).'
     ' R2 also requires every definition of the validated object to be a read under the lock (or None).'
     " (R16) one lock per table: the lock provider's path is the backend's canonical resolution itself (C19.R10); (R17) a snapshot deletion repoints to the latest committed survivor (C09.R4)."
-    ' R3 accepts attempt-invariant values computed once before the retry loop (derived from the queued operations only).')
+    ' R3 accepts attempt-invariant values computed once before the retry loop (derived from the queued operations only).'
+    " R2 also requires the package calls that decide WHICH version is validated (the pointer read / recovery scan the validated file's name derives from) to run under the distributed lock.")
 NOT_DECIDED = ("that flock / the S3 CAS lock actually excludes; the final-state-equals-serial-order statement "
                "over interleavings; linearity of the surviving chain at run time")
 
